@@ -17,6 +17,8 @@ pub struct Adv {
     pub adversaries: usize,
     pub deviations: usize,
     pub gated: bool,
+    /// Leftover (zero-filled, right length) piece files of an interrupted earlier run.
+    pub stale: Vec<usize>,
 }
 
 #[derive(Default, Clone)]
@@ -53,12 +55,12 @@ impl Adv {
 impl Scenario for Adv {
     type Mon = Mon;
     fn name(&self) -> String {
-        format!("adversary-{}-dev{}-{}", self.adversaries, self.deviations, if self.gated { "gated" } else { "direct" })
+        format!("adversary-{}-dev{}-{}{}", self.adversaries, self.deviations, if self.gated { "gated" } else { "direct" }, if self.stale.is_empty() { String::new() } else { format!("-stale{:?}", self.stale) })
     }
     fn cfg(&self) -> WorldCfg {
         let mut peers: Vec<_> = (0..self.adversaries).map(|k| peer_cfg(k, true)).collect();
         peers.push(peer_cfg(self.adversaries, false));
-        WorldCfg { torrent: torrent(), have: vec![], peers, gated: self.gated }
+        WorldCfg { torrent: torrent(), have: vec![], peers, gated: self.gated, stale: self.stale.clone() }
     }
     fn explore_choices(&self) -> bool {
         true
@@ -335,13 +337,23 @@ impl Scenario for Adv {
 pub fn scenarios(thorough: bool) -> Vec<(Adv, usize)> {
     if thorough {
         vec![
-            (Adv { adversaries: 1, deviations: 5, gated: false }, 14),
-            (Adv { adversaries: 2, deviations: 3, gated: false }, 10),
-            (Adv { adversaries: 1, deviations: 2, gated: true }, 10),
-            (Adv { adversaries: 2, deviations: 1, gated: true }, 9),
+            (Adv { adversaries: 1, deviations: 5, gated: false, stale: vec![] }, 14),
+            (Adv { adversaries: 2, deviations: 3, gated: false, stale: vec![] }, 10),
+            (Adv { adversaries: 1, deviations: 2, gated: true, stale: vec![] }, 10),
+            (Adv { adversaries: 2, deviations: 1, gated: true, stale: vec![] }, 9),
+            (Adv { adversaries: 1, deviations: 2, gated: false, stale: vec![0, 1] }, 10),
+            (Adv { adversaries: 2, deviations: 1, gated: false, stale: vec![1] }, 8),
         ]
     } else {
-        vec![(Adv { adversaries: 1, deviations: 3, gated: false }, 10), (Adv { adversaries: 2, deviations: 2, gated: false }, 7)]
+        vec![
+            (Adv { adversaries: 1, deviations: 3, gated: false, stale: vec![] }, 10),
+            (Adv { adversaries: 2, deviations: 2, gated: false, stale: vec![] }, 7),
+            // held-back broadcasts: a second connection can finish (or spoil) a piece that the first
+            // one has already stored, before its task learns about that
+            (Adv { adversaries: 2, deviations: 1, gated: true, stale: vec![] }, 7),
+            // leftovers of an interrupted earlier run lie in the download directory
+            (Adv { adversaries: 1, deviations: 1, gated: false, stale: vec![0, 1] }, 8),
+        ]
     }
 }
 
@@ -364,7 +376,7 @@ pub fn run(ctx: &Ctx) -> Outcome {
     let mut o = Outcome::new("model_checking");
     explore::stats_outcome(&total, &mut o);
     o.set("scenarios", Value::Array(per));
-    o.set("rule", json!("torrent: piece 0 = 16387 B (blocks 16384 + 3), piece 1 = 5 B; adversarial peer k (after handshake + full bitfield): N unchoke, Go/Gn correct answer to the oldest/newest outstanding request, Xo/Xn same coordinates with one payload bit flipped, Wi other piece index, Wb begin+1, Wl/WL one byte short/long, D duplicate of the last accepted block, U block at an offset never requested, C choke, Z close, R reset, L release of a held-back broadcast; observer (incoming): So joins at any point (handshake + empty bitfield + interested in one read; the bitfield it is sent is checked), then Q0/Q1 requests the first block of piece 0/1; histories with at most `dev` non-honest events (N, G*, L are honest); every tie-break of the chooser enumerated. Plus two full-session scenarios borrowed from C02 (storage-*): a host re-listed by the tracker under a new peer id while its old connection is live, and two seeders with held-back broadcasts; there only 'Have implies a stored verified piece' and 'owned stays owned' are evaluated."));
+    o.set("rule", json!("torrent: piece 0 = 16387 B (blocks 16384 + 3), piece 1 = 5 B; adversarial peer k (after handshake + full bitfield): N unchoke, Go/Gn correct answer to the oldest/newest outstanding request, Xo/Xn same coordinates with one payload bit flipped, Wi other piece index, Wb begin+1, Wl/WL one byte short/long, D duplicate of the last accepted block, U block at an offset never requested, C choke, Z close, R reset, L release of a held-back broadcast; observer (incoming): So joins at any point (handshake + empty bitfield + interested in one read; the bitfield it is sent is checked), then Q0/Q1 requests the first block of piece 0/1; -stale scenarios start with zero-filled files of the right length under the names of the listed pieces (they are not data the client stored; a piece counts as stored only when its file holds verified content); histories with at most `dev` non-honest events (N, G*, L are honest); every tie-break of the chooser enumerated. Plus two full-session scenarios borrowed from C02 (storage-*): a host re-listed by the tracker under a new peer id while its old connection is live, and two seeders with held-back broadcasts; there only 'Have implies a stored verified piece' and 'owned stays owned' are evaluated."));
     o.assume("payload bytes enter the state key only as per-block tags {empty, correct, corrupt}: no code path inspects payload other than through SHA-1 of the whole piece");
     o
 }
